@@ -3,9 +3,17 @@
 Same exploration as C01 (mc/cache_explore.py) over the volume accessors, on every conforming tetrahedral
 complex of the TET family, with cell-vertex-order deviations, both values of sort_neighborhoods. The
 oracle is computed from the raw cell list; the boundary-surface clauses use exact integer volumes.
+
+Deviations from the default execution (each for the whole family of base listings, see RULE / BOUNDS): duplicate-attribute
+switch, completion switches, unit of length, large specimens, and (round 5)
+ * refined in place: queries -> one VolumeSubdivision block on the same object -> every accessor (_refine_runs),
+ * typed arrays: construction from numpy arrays / rows of every coordinate and index type, coordinates up to the top of
+   the type's range (_array_runs),
+ * total judges: an answer that is not of the promised kind is a mismatch of that accessor (Ev.total_judge).
 """
 from __future__ import annotations
 import itertools, math
+from fractions import Fraction
 from mc.core import Report, h64
 from mc import families as F
 from mc.cache_explore import Ev as _Ev, explore, tup
@@ -15,12 +23,19 @@ TECHNIQUE = "explicit-state BFS over accessor-call histories (cache states) of r
 RULE = ("inputs: every labelled conforming tetrahedral complex of TET (see bounds) with moment-curve coordinates, cells "
         "listed sorted / positively oriented / with <=k position transpositions, x sort_neighborhoods; per input the "
         "accessor transition system (incl. enable_boundary_connectivity and the standalone boundary extractor) is explored "
-        "to a fixed point; a case = one distinct (mesh, config, cache state); non-trivial = complex has >= 2 cells")
+        "to a fixed point; a case = one distinct (mesh, config, cache state); non-trivial = complex has >= 2 cells. "
+        "History deviation 'refined in place': base listing -> pre-history (nothing | each single accessor | every accessor | every accessor "
+        "then connectivity.clear() | an earlier editing block followed by every accessor) -> one VolumeSubdivision block on the SAME object "
+        "(fan split of a cell | centre split of a border face | centre split of an interior face) -> every accessor, judged against the cell "
+        "list the block left (read back from the mesh, coordinates as exact rationals). "
+        "Argument-form deviation 'typed arrays': the same listings built from numpy arrays / rows of every coordinate type x index type through "
+        "RawMeshData rows and mesh.from_arrays, integer coordinates as generated, times the largest integer and times the largest power of two "
+        "the type holds (<= 2^52, so the oracle's integers are what the library stores); every accessor judged as usual")
 ASSUMPTIONS = ["tetrahedral complexes on <= 6 vertices (with interior edge from 5, interior vertex from 6 vertices) + cube/data specimens",
                "edge rings are accepted in either rotational direction", "face and edge ids are taken from mesh.faces / mesh.edges (construction is C02's subject)",
                "configuration deviation: every base listing is also built and queried with the completion switches of mouette.config off (faces - wound as the generated ones, or with ascending vertex ids - and/or edges supplied by the caller, or no edge list at all: the edge domains are then empty and every other accessor is judged as usual); with an edge list that is neither complete nor empty nothing is promised and nothing is asked"]
-BOUNDS = {"quick": "TET(4), TET(5) all labelled (27 complexes) x {sorted, positive, every single position-transposition of one cell}; TET(6) isomorphism classes (16) x {sorted, positive}; repo tests/data *.tet; cache-state BFS over histories of <= 2 events (every accessor evaluated in every state reached); base listings x 6 completion-switch configurations (histories of <= 1 event)",
-          "thorough": "TET(<=6) all labelled (2449) x {sorted, positive}; TET(<=5) with <=2 position transpositions; TET(6) classes with <=1; cache-state BFS to the fixed point for the base listings of TET(<=5), histories of <= 3 events otherwise; base listings x 6 completion-switch configurations (histories of <= 2 events)"}
+BOUNDS = {"quick": "TET(4), TET(5) all labelled (27 complexes) x {sorted, positive, every single position-transposition of one cell}; TET(6) isomorphism classes (16) x {sorted, positive}; repo tests/data *.tet; cache-state BFS over histories of <= 2 events (every accessor evaluated in every state reached); base listings x 6 completion-switch configurations (histories of <= 1 event); refined in place: positively oriented listing of TET(4), TET(5), TET(6) classes (43) x 34 pre-histories (nothing, 29 single accessors, all, all + clear, 2 with an earlier block) x 1 editing operation (kind and argument in rotation over mesh and pre-history index), all accessors once after the block (+ numpy-integer arguments); typed arrays: the same 43 complexes, positive and ascending listing x 12 coordinate types (magnitude, entry point, index type in rotation) + 4 of 8 index types with doubles",
+          "thorough": "TET(<=6) all labelled (2449) x {sorted, positive}; TET(<=5) with <=2 position transpositions; TET(6) classes with <=1; cache-state BFS to the fixed point for the base listings of TET(<=5), histories of <= 3 events otherwise; base listings x 6 completion-switch configurations (histories of <= 2 events); refined in place: TET(4), TET(5) x 34 pre-histories x EVERY operation (each cell, each face), TET(6) classes x 34 pre-histories x one operation of each kind, both values of sort_neighborhoods, + the rotation of quick under the duplicate-attribute switch; typed arrays: TET(4), TET(5) x 2 listings x 12 coordinate types x 3 magnitudes x 2 entry points x 8 index types; TET(6) classes x 2 listings x (12 coordinate types x 3 magnitudes x 2 entry points, index type in rotation, + 8 index types x 2 entry points with doubles)"}
 BATCH = 6
 DUP = [False]
 CFG = [None]
@@ -28,10 +43,20 @@ UNIT = [1.0]    # unit of length of the built mesh (a power of two: the scaled c
 CFG_CLASS = {"F": "faces_given:face_completion_off", "Fa": "faces_given_ascending_winding:face_completion_off", "E": "edges_given:edge_completion_off", "-": "no_edges:edge_completion_off",
              "FE": "faces_and_edges_given:completion_off", "F-": "faces_given_no_edges:completion_off"}
 DEPTH = [2]     # bound on the number of state-changing events per history (set per tier in run_task)
+SUFFIX = [""]   # input-class suffix of the deviation the current exploration runs under (in-place refinement / array types)
+DETAIL = [{}]   # what the deviation did (pre-history, editing operation, array types): copied into every violation detail
+MAG = [1]       # integer factor (a power of two) by which the array-type deviation multiplied the integer coordinates
 
 
 def Ev(name, domain, fn, judge, callee=None, per_arg=False):
-    return _Ev(name, domain, fn, judge, callee or ("VolumeMesh.connectivity." + name), per_arg)
+    def total_judge(o, a, got):
+        # the judges are total: an answer that is not of the promised kind at all (None instead of a listing, a listing
+        # holding something that is not an id, a map that is not a map) is a wrong answer, not a failure of the harness
+        try:
+            return judge(o, a, got)
+        except Exception as ex:   # noqa (watchdog / replay-hit are BaseExceptions)
+            return ("answer_not_of_the_promised_kind:" + type(got).__name__, type(ex).__name__)
+    return _Ev(name, domain, fn, total_judge, callee or ("VolumeMesh.connectivity." + name), per_arg)
 
 
 # ------------------------------------------------------------------------------------------ inputs
@@ -117,6 +142,22 @@ def tasks(tier):
     for cfg in CONFIGS:
         for i in range(0, len(base), 4):
             out.append({"sort": True, "cfg": cfg, "depth": dcfg, "depth_base": dcfg, "complexes": base[i:i + 4]})
+    # history deviation: the mesh is refined IN PLACE (one VolumeSubdivision block) between two rounds of queries.  Every
+    # pre-history of PRE_CLASSES x the editing operations (quick: one per mesh and pre-history, kind and argument in
+    # rotation; thorough: every operation on every cell / face), then every accessor in the state the block leaves
+    base = [[x[0], x[1], x[2], 0, False] for x in _inputs("quick")]      # both tiers: TET(4), TET(5) all labelled, TET(6) classes
+    step = 2 if tier == "quick" else 1
+    for srt in ((True,) if tier == "quick" else (True, False)):
+        for i in range(0, len(base), step):
+            mode = "rotation" if tier == "quick" else ("all" if base[i][1] <= 5 else "kinds")
+            out.append({"sort": srt, "refine": mode, "i0": i, "depth": 1, "depth_base": 1, "complexes": base[i:i + step]})
+            if tier != "quick" and srt:      # crossed with the duplicate-attribute switch (the border flags live in attributes)
+                out.append({"sort": srt, "dup": True, "refine": "rotation", "i0": i, "depth": 1, "depth_base": 1, "complexes": base[i:i + step]})
+    # argument-form deviation: the mesh is built from numpy arrays / rows of every coordinate type of COORD_TYPES and index
+    # type of INDEX_TYPES, through both entry points of ENTRIES, with the integer coordinates as generated and multiplied by
+    # the largest power of two the type holds
+    for i in range(0, len(base), step):
+        out.append({"sort": True, "arrays": "rotation" if tier == "quick" else ("all" if base[i][1] <= 5 else "cross"), "i0": i, "depth": 1, "depth_base": 1, "complexes": base[i:i + step]})
     return out
 
 
@@ -146,6 +187,199 @@ def _cfg_build(M, pts, cells, cfg):
                 if frozenset(e) not in seen:
                     seen.add(frozenset(e)); raw.edges.append(tuple(sorted(e)))
     return M.mesh.VolumeMesh(raw)
+
+
+# ------------------------------------------------------------------------------------------ in-place refinement
+REFINE_RUNS_QUICK = 1462   # 43 complexes x 34 pre-histories (pinned; thorough runs more)
+ARRAY_RUNS_QUICK = 1328    # pinned count of the quick rotation (32 forms filtered: point set not representable in the type)
+PRE_CLASSES = ("fresh", "one_query", "all_queries", "block_then_all_queries")
+EDIT_KINDS = ("fan_split_of_a_cell", "centre_split_of_a_border_face", "centre_split_of_an_interior_face")
+
+
+class _Dom:
+    """What the argument domains of the accessors need, read from the mesh as it is now."""
+    def __init__(self, m):
+        self.C = [tuple(int(v) for v in c) for c in m.cells]
+        self.Fl = [tuple(int(v) for v in f) for f in m.faces]
+        self.E = [tuple(int(v) for v in e) for e in m.edges]
+        self.n = len(m.vertices)
+
+
+def _query(m, ev):
+    """One accessor asked once (first argument of its domain; its whole domain if it caches per argument)."""
+    from mc.core import call
+    d = list(ev.domain(_Dom(m)))
+    for a in (d if ev.per_arg else d[:1]):
+        call(ev.fn, m, *a)
+
+
+def _edit_block(M, m, op):
+    from mouette.mesh.subdivision import VolumeSubdivision
+    kind, arg = op
+    with VolumeSubdivision(m) as sub:
+        if kind == EDIT_KINDS[0]:
+            sub.split_cell_as_fan(arg)
+        else:
+            sub.split_tet_from_face_center(arg)
+
+
+def _edit_menu(cells, faces):
+    """Editing operations by kind, from the cell and face lists (independent of the library's border answers)."""
+    inc = {}
+    for c in cells:
+        for t in itertools.combinations(sorted(c), 3):
+            inc[t] = inc.get(t, 0) + 1
+    menu = {k: [] for k in EDIT_KINDS}
+    menu[EDIT_KINDS[0]] = [(EDIT_KINDS[0], c) for c in range(len(cells))]
+    for f, fv in enumerate(faces):
+        k = inc.get(tuple(sorted(int(v) for v in fv)), 0)
+        if k == 1:
+            menu[EDIT_KINDS[1]].append((EDIT_KINDS[1], f))
+        elif k == 2:
+            menu[EDIT_KINDS[2]].append((EDIT_KINDS[2], f))
+    return menu
+
+
+def _pre_histories(events):
+    """(class, label, steps); a step is ("q", event name) | ("reset",) | ("all",) | ("block", kind)"""
+    out = [("fresh", "fresh", [])]
+    out += [("one_query", e.name, [("q", e.name)]) for e in events]
+    out.append(("one_query", "all+connectivity.clear", [("all",), ("reset",)]))
+    out.append(("all_queries", "all", [("all",)]))
+    out.append(("block_then_all_queries", "fan_block,all", [("block", EDIT_KINDS[0]), ("all",)]))
+    out.append(("block_then_all_queries", "all,face_block,all", [("all",), ("block", EDIT_KINDS[1]), ("all",)]))
+    return out
+
+
+def _apply_pre(M, m, steps, evmap, events):
+    for st in steps:
+        if st[0] == "q":
+            _query(m, evmap[st[1]])
+        elif st[0] == "all":
+            for e in events:
+                _query(m, e)
+        elif st[0] == "reset":
+            m.connectivity.clear()
+        else:
+            d = _Dom(m)
+            mn = _edit_menu(d.C, d.Fl)
+            _edit_block(M, m, (mn[st[1]] or mn[EDIT_KINDS[0]])[0])      # a closed complex has no border face: fan split instead
+
+
+def _refine_runs(M, name, n, pts, cells, sort, rep, events, mode, mesh_index):
+    evmap = {e.name: e for e in events}
+    m0 = F.build_volume(pts, cells, tuple)
+    menu = _edit_menu(cells, [tuple(f) for f in m0.faces])
+    kinds = [k for k in EDIT_KINDS if menu[k]]
+    for j, (pcls, plabel, steps) in enumerate(_pre_histories(events)):
+        if mode == "rotation":       # one operation per pre-history: kind and argument in rotation
+            k = kinds[(mesh_index + j) % len(kinds)]
+            ops = [menu[k][j % len(menu[k])]]
+        elif mode == "kinds":        # one operation of every kind per pre-history, argument in rotation
+            ops = [menu[k][j % len(menu[k])] for k in kinds]
+        else:
+            ops = [op for k in kinds for op in menu[k]]
+        for op in ops:
+            def build(steps=steps, op=op):
+                m = F.build_volume(pts, cells, tuple)
+                _apply_pre(M, m, steps, evmap, events)
+                _edit_block(M, m, op)
+                return m
+            m = build()
+            cells2 = [tuple(int(v) for v in c) for c in m.cells]
+            pts2 = [tuple(Fraction(float(x)) for x in p) for p in m.vertices]   # the stored coordinates, exactly
+            if len(cells2) <= len(cells) + (2 if "block" in plabel else 0):
+                rep.count("refine_noop"); continue
+            SUFFIX[0] = ":refined_in_place"
+            DETAIL[0] = {"refined_from": [list(c) for c in cells], "queries_before_the_block": plabel, "block": list(op)}
+            try:
+                _explore(M, f"{name}:pre={plabel}:{op[0]}({op[1]})", len(pts2), pts2, cells2, sort, rep, events, build)
+            finally:
+                SUFFIX[0] = ""; DETAIL[0] = {}
+            rep.flag("refine_pre:" + pcls); rep.flag("refine_kind:" + op[0]); rep.count("refine_runs")
+
+
+# ------------------------------------------------------------------------------------------ array types
+COORD_TYPES = ("python_int", "int8", "uint8", "int16", "uint16", "int32", "uint32", "int64", "uint64", "float16", "float32", "float64")
+INDEX_TYPES = ("int8", "uint8", "int16", "uint16", "int32", "uint32", "int64", "uint64")
+ENTRIES = ("RawMeshData_rows", "from_arrays")
+MAGNITUDES = ("as_generated", "largest_integer_multiple_the_type_holds", "largest_power_of_two_multiple_the_type_holds")
+
+
+def _coord_limit(np, ct):
+    """Largest integer magnitude used with a coordinate type: every integer up to it is held exactly by the type and by a double."""
+    if ct == "python_int":
+        return 2 ** 52
+    if ct.startswith("float"):
+        return {"float16": 2 ** 11, "float32": 2 ** 24, "float64": 2 ** 52}[ct]
+    return min(int(np.iinfo(ct).max), 2 ** 52)
+
+
+def _array_form(np, pts, ct, mag):
+    """Integer points moved (unsigned types: every coordinate made >= 0 by an integer shift) and multiplied by a power of
+    two so that they are representable in the type: returns the integer points the mesh is built from, or None."""
+    if ct.startswith("uint"):
+        lo = [min(p[k] for p in pts) for k in range(3)]
+        pts = [tuple(p[k] - lo[k] for k in range(3)) for p in pts]
+    top = max(abs(x) for p in pts for x in p)
+    lim = _coord_limit(np, ct)
+    if top > lim:
+        return None, 1
+    k = 1
+    if mag == MAGNITUDES[1]:
+        k = lim // top
+    elif mag == MAGNITUDES[2]:
+        while top * k * 2 <= lim:
+            k *= 2
+    return [tuple(x * k for x in p) for p in pts], k
+
+
+def _array_build(M, np, ipts, cells, ct, it, entry):
+    if entry == ENTRIES[0]:
+        raw = M.mesh.RawMeshData()
+        raw.vertices += [tuple(p) if ct == "python_int" else np.array(p, dtype=ct) for p in ipts]
+        raw.cells += [np.array(c, dtype=it) for c in cells]
+        return M.mesh.VolumeMesh(raw)
+    V = np.array(ipts, dtype=None if ct == "python_int" else ct)
+    return M.mesh.from_arrays(V, C=np.array(cells, dtype=it))
+
+
+def _array_forms(mode, mesh_index):
+    if mode == "all":
+        return [(ct, mg, en, it) for ct in COORD_TYPES for mg in MAGNITUDES for en in ENTRIES for it in INDEX_TYPES]
+    if mode == "cross":      # coordinate type x magnitude x entry point (index type in rotation) + index type x entry point
+        out = [(ct, mg, en, INDEX_TYPES[(mesh_index + 3 * d + g + e) % len(INDEX_TYPES)])
+               for d, ct in enumerate(COORD_TYPES) for g, mg in enumerate(MAGNITUDES) for e, en in enumerate(ENTRIES)]
+        return out + [("float64", MAGNITUDES[0], en, it) for it in INDEX_TYPES for en in ENTRIES]
+    out = []
+    for d, ct in enumerate(COORD_TYPES):         # every coordinate type; magnitude, entry point and index type in rotation
+        g = (mesh_index + d) % len(MAGNITUDES)
+        out.append((ct, MAGNITUDES[g], ENTRIES[(mesh_index // 2 + d + g) % 2], INDEX_TYPES[(mesh_index + 3 * d + g) % len(INDEX_TYPES)]))
+    for k, it in enumerate(INDEX_TYPES):         # half of the index types with plain doubles; entry point in rotation
+        if (k + mesh_index) % 2 == 0:
+            out.append(("float64", MAGNITUDES[0], ENTRIES[(mesh_index // 2 + k // 2) % 2], it))
+    return out
+
+
+def _array_runs(M, name, n, pts, cells, sort, rep, events, mode, mesh_index):
+    import numpy as np
+    for ct, mg, en, it in _array_forms(mode, mesh_index):
+        ipts, k = _array_form(np, pts, ct, mg)
+        if ipts is None or n - 1 > int(np.iinfo(it).max):
+            rep.count("filtered_not_representable_in_the_type"); continue
+        SUFFIX[0] = ":built_from_typed_arrays"
+        DETAIL[0] = {"coordinate_type": ct, "index_type": it, "entry_point": en, "integer_points": [list(p) for p in ipts]}
+        try:
+            _explore(M, f"{name}:{en}:{ct}x{k}:{it}", n, ipts, cells, sort, rep, events,
+                     lambda: _array_build(M, np, ipts, cells, ct, it, en))
+        finally:
+            SUFFIX[0] = ""; DETAIL[0] = {}
+        rep.flag("coord_type:" + ct); rep.flag("index_type:" + it); rep.flag("entry:" + en); rep.count("array_runs")
+        if mg != MAGNITUDES[0]:
+            rep.flag("magnitude_top:" + ct)
+        prod = (max(x for p in ipts for x in p) - min(x for p in ipts for x in p)) ** 3
+        if not ct.startswith("float") and ct != "python_int" and prod > int(np.iinfo(ct).max):
+            rep.flag("triple_product_leaves_range:" + ct)
 
 
 # ------------------------------------------------------------------------------------------ geometry
@@ -201,7 +435,7 @@ class VolOracle:
         self.E = [tuple(sorted((int(a), int(b)))) for a, b in edges]
         self.eid = {e: i for i, e in enumerate(self.E)}
         self.pts = pts
-        self.embedded = locally_embedded(self.C, pts) if all(isinstance(x, int) for p in pts for x in p) else None
+        self.embedded = locally_embedded(self.C, pts) if all(isinstance(x, (int, Fraction)) for p in pts for x in p) else None
         self.f_cells = [[] for _ in self.Fl]
         self.c_faces = []
         for ic, c in enumerate(self.C):
@@ -292,7 +526,7 @@ def _events(sort):
     E.append(Ev("common_face", lambda o: [(a, b) for a in range(len(o.C)) for b in range(len(o.C))],
                 lambda m, a, b: conn(m).common_face(a, b), eq(cf_want)))
     E.append(Ev("vertex_to_cell", verts, lambda m, v: conn(m).vertex_to_cell(v), seteq(lambda o, v: [i for i, c in enumerate(o.C) if v in c])))
-    E.append(Ev("cell_to_vertex", cells, lambda m, c: conn(m).cell_to_vertex(c), eq(lambda o, c: o.C[c])))
+    E.append(Ev("cell_to_vertex", cells, lambda m, c: list(conn(m).cell_to_vertex(c)), eq(lambda o, c: o.C[c])))
     E.append(Ev("in_cell_index", lambda o: [(c, v) for c in range(len(o.C)) for v in range(o.n)],
                 lambda m, c, v: conn(m).in_cell_index(c, v), eq(lambda o, c, v: o.C[c].index(v) if v in o.C[c] else None)))
     E.append(Ev("in_cell_face_index", lambda o: [(c, f) for c in range(len(o.C)) for f in range(len(o.Fl))],
@@ -492,10 +726,10 @@ def _explore(M, name, n, pts, cells, sort, rep, events, build, big=False):
     def icls(warm):
         return (f"tet:cells{'1' if len(o.C) == 1 else '2+'}:{'positive' if positive else 'mixed-orientation'}:"
                 f"sort={sort}:{'warm' if warm else 'fresh'}" + (":duplicate_attribute_flag" if DUP[0] else "")
-                + (":" + CFG_CLASS[CFG[0]] if CFG[0] else "") + (":unit=2^%d" % round(math.log2(UNIT[0])) if UNIT[0] != 1.0 else ""))
+                + (":" + CFG_CLASS[CFG[0]] if CFG[0] else "") + (":unit=2^%d" % round(math.log2(UNIT[0])) if UNIT[0] != 1.0 else "") + SUFFIX[0])
     resets = {"connectivity.clear": lambda m: m.connectivity.clear()}
     seen = explore("C03", build, o, events, resets, _state_key, _content_key, rep, icls,
-                   {"mesh": name, "n": n, "cells": [list(c) for c in cells] if not big else "see mc.families.cube_grid_tets(4)", "sort": sort},
+                   dict({"mesh": name, "n": n, "cells": [list(c) for c in cells] if not big else "see mc.families.cube_grid_tets(4)", "sort": sort}, **DETAIL[0]),
                    max_states=4000, max_depth=DEPTH[0], domain_cap=1500 if big else None, numpy_args=not big)
     for k in seen:
         if len(o.C) >= 2:
@@ -555,6 +789,14 @@ def run_task(task, rep: Report):
                     continue
                 v = [tuple(c) for c in v]
                 DEPTH[0] = task.get("depth", 2) if tag.startswith("dev") else task.get("depth_base", 2)
+                if "refine" in task or "arrays" in task:
+                    if tag != "positive" and ("refine" in task or len(v) < 2):
+                        continue
+                    # rotation index: position of the complex in the base list; the ascending listing of the array-type
+                    # deviation (cells of both orientations: both outcomes of every orientation test) is one step ahead
+                    mi = task["i0"] + [x[0] for x in task["complexes"]].index(name) + (tag != "positive")
+                    (_refine_runs if "refine" in task else _array_runs)(M, f"{name}:{tag}", n, pts, v, sort, rep, events, task.get("refine") or task["arrays"], mi)
+                    continue
                 if cfg is not None:
                     _explore(M, f"{name}:{tag}:cfg={cfg}", n, pts, v, sort, rep, events, lambda v=v: _cfg_build(M, pts, v, cfg))
                     rep.flag("cfg:" + cfg); rep.count("config_deviation_meshes")
@@ -568,6 +810,7 @@ def run_task(task, rep: Report):
     finally:
         CFG[0] = None
         UNIT[0] = 1.0
+        SUFFIX[0] = ""; DETAIL[0] = {}
         M.config.complete_faces_from_cells, M.config.complete_edges_from_faces = old_cf, old_ce
         M.config.sort_neighborhoods = old
         M.config.display_duplicate_attribute_warning = old_dup
@@ -586,6 +829,34 @@ def finish(tier, rep: Report):
     for cfg in CONFIGS:
         if "cfg:" + cfg not in rep.flags:
             fails.append("configuration deviation not exercised: " + cfg)
+    # in-place refinement: every class of pre-history and every kind of block was run, no block was a no-op
+    for c in PRE_CLASSES:
+        if "refine_pre:" + c not in rep.flags:
+            fails.append("in-place refinement: pre-history class not exercised: " + c)
+    for k in EDIT_KINDS:
+        if "refine_kind:" + k not in rep.flags:
+            fails.append("in-place refinement: editing operation not exercised: " + k)
+    if rep.counters.get("refine_noop"):
+        fails.append("in-place refinement: %d blocks did not enlarge the cell list" % rep.counters["refine_noop"])
+    if rep.counters.get("refine_runs", 0) < REFINE_RUNS_QUICK:
+        fails.append("in-place refinement: %d explorations, expected >= %d" % (rep.counters.get("refine_runs", 0), REFINE_RUNS_QUICK))
+    # typed arrays: every coordinate type, index type and entry point was run; every integer type was run at a magnitude
+    # where the product of three coordinate differences leaves its range
+    for ct in COORD_TYPES:
+        if "coord_type:" + ct not in rep.flags:
+            fails.append("typed arrays: coordinate type not exercised: " + ct)
+        if "magnitude_top:" + ct not in rep.flags:
+            fails.append("typed arrays: no enlarged magnitude for coordinate type " + ct)
+        if "int" in ct and ct != "python_int" and "triple_product_leaves_range:" + ct not in rep.flags:
+            fails.append("typed arrays: no specimen whose triple products leave the range of " + ct)
+    for it in INDEX_TYPES:
+        if "index_type:" + it not in rep.flags:
+            fails.append("typed arrays: index type not exercised: " + it)
+    for en in ENTRIES:
+        if "entry:" + en not in rep.flags:
+            fails.append("typed arrays: entry point not exercised: " + en)
+    if rep.counters.get("array_runs", 0) < ARRAY_RUNS_QUICK:
+        fails.append("typed arrays: %d explorations, expected >= %d" % (rep.counters.get("array_runs", 0), ARRAY_RUNS_QUICK))
     if rep.counters.get("premise_failed"):
         fails.append("oracle premise failed on some meshes")
     return fails
